@@ -280,14 +280,22 @@ class NodeBlock:
     def evaluate(self, environment):
         result = TRUE
         try:
-            for expression in self.expressions:
-                result = expression.evaluate(environment)
-                if result.isReturn():
-                    break
-                if result.isBreak():
-                    break
-                if result.isContinue():
-                    break
+            try:
+                for expression in self.expressions:
+                    result = expression.evaluate(environment)
+                    if result.isReturn():
+                        break
+                    if result.isBreak():
+                        break
+                    if result.isContinue():
+                        break
+            except RecursionError:
+                # the host's stack is used up (a recursion without end, a
+                # value that contains itself or is nested too deeply): this
+                # is an error of the program, which catch can intercept
+                raise CklRuntimeError(
+                    ValueString("ERROR"), "Recursion too deep", self.pos
+                ) from None
         except CklRuntimeError as e:
             for err, expr in self.catchexprs:
                 if not err or e.value == err.evaluate(environment):
